@@ -166,10 +166,23 @@ FitsWorst(b, pct, layers, compact) ==
 \* lower bound on the bits any encoding needs: 4 bits per byte
 FitsBest(nb, pct, layers, compact) == 4 * nb + EccBits(4 * nb, pct) <= TotalBits(layers, compact)
 LayerOK(req) == req \in -4..32
-MustAccept(nb, pct, req) ==
+\* a tighter bound for payloads that admit exactly one encoding and cannot need bit stuffing: bytes 0xAA / 0xD5 only (both are
+\* outside every character table, so only binary shift can carry them, and no run of five equal bits occurs anywhere in the
+\* payload); three words of slack cover the shift headers, one more header per 2000 bytes covers chunked shifts.
+\* (0x55 must not be used: it is the letter U, and the library's search then mixes modes and needs ~3% more bits than one
+\* long binary shift - a heuristic sub-optimality that the two-sided acceptance deliberately tolerates.)
+NoRuns(bytes) == bytes # <<>> /\ \A i \in 1..Len(bytes) : bytes[i] \in {170, 213}
+FitsNoStuff(nb, pct, layers, compact) ==
+  LET w == WordSize(layers)
+      tot == TotalBits(layers, compact)
+      b == 21 * (1 + (nb \div 2000)) + 8 * nb
+      stuffed == (((b + w - 1) \div w) + 3) * w
+  IN stuffed + EccBits(b, pct) <= tot - (tot % w) /\ (compact => stuffed <= 64 * w)
+MustAccept(bytes, pct, req) ==
+  LET nb == Len(bytes) IN
   /\ LayerOK(req) /\ pct >= 0
-  /\ IF req = 0 THEN FitsWorst(BinaryBits(nb), pct, 32, FALSE)
-     ELSE FitsWorst(BinaryBits(nb), pct, Abs(req), req < 0)
+  /\ IF req = 0 THEN FitsWorst(BinaryBits(nb), pct, 32, FALSE) \/ (NoRuns(bytes) /\ FitsNoStuff(nb, pct, 32, FALSE))
+     ELSE FitsWorst(BinaryBits(nb), pct, Abs(req), req < 0) \/ (NoRuns(bytes) /\ FitsNoStuff(nb, pct, Abs(req), req < 0))
 MustReject(nb, pct, req) ==
   \/ ~LayerOK(req)
   \/ IF req = 0 THEN ~FitsBest(nb, pct, 32, FALSE) ELSE ~FitsBest(nb, pct, Abs(req), req < 0)
